@@ -3,7 +3,7 @@ from .core import BASE_TRUST, LEAN, Problem
 
 META = {
     "category": "proof",
-    "text": "PARTIAL. Lean 4 proof of the access discipline (own-index with disjoint ranges / sole goroutine / common lock / synchronisation object / read-only => no data race in ANY interleaving of ANY fork-join execution, all n, all access lists) and of the partition GoroutineTaskManager.RecordRange as generated from the source on every run (disjoint, tiles [0,len) in order, all len, all n>0; plus the stride and partition index spaces); the access facts of every worker closure of lib/query are regenerated from /repo and checked by `decide` (theorems facts_ok, facts_consistent, manager_fields_locked: consistent per location, NO unguarded access; pre-finding F7 was repaired in /repo by commit bec97d6 and stays watched: a new unguarded access breaks facts_ok and is reported as race:<file>:<function>:<variable>). TRUSTED, not proved: the step 'syntactic class => actual access pattern of the running program' (methods called on shared objects of foreign types are summarised from their source) and the Go memory model; since the interprocedural extension the functions CALLED from the closures are analysed too (call graph of lib/query, lib/value, lib/option resolved with go/types; every access through an object several goroutines can reach, with the locks held in the function, at all its call sites, or handed on by a callee: theorems callee_facts_ok, callee_locks_consistent, no_unguarded_package_state (process-wide caches and pools are sync.Map / sync.Pool / sync.Once / own lock), reachable_set_pinned (ways out of the analysed code and the set of functions that write shared state are pinned)); the abstraction 'shared or own object' is syntactic and stays trusted; cross-checked on every run by the Go race detector over filter/join/group/order/distinct/analytic/DML/file-load workloads at @@CPU 2..8. Objects that reach two goroutines WITHOUT a closure capturing them are covered by two further fact families checked by `decide` (release facts: no path of lib/query gives a node scope / block scope / merged record / key buffer back to its sync.Pool twice, deferred calls included — theorems pooled_objects_released_at_most_once, scopes_released_exactly_once; header facts: a view that takes another view's header instead of a copy is not written through — shared_headers_not_written, header_write_sites_reviewed) and by laws on the real code in the race workloads (pool probe after every failing statement of a history: objects taken from the scope pools while all are held are pairwise distinct; results of parallel sub-query statements unchanged after a history of failures; evaluating an expression for one record leaves the view's header and records unchanged)",
+    "text": "PARTIAL. Lean 4 proof of the access discipline (own-index with disjoint ranges / sole goroutine / common lock / synchronisation object / read-only => no data race in ANY interleaving of ANY fork-join execution, all n, all access lists) and of the partition GoroutineTaskManager.RecordRange as generated from the source on every run (disjoint, tiles [0,len) in order, all len, all n>0; plus the stride and partition index spaces); the access facts of every worker closure of lib/query are regenerated from /repo and checked by `decide` (theorems facts_ok, facts_consistent, manager_fields_locked: consistent per location, NO unguarded access; pre-finding F7 was repaired in /repo by commit bec97d6 and stays watched: a new unguarded access breaks facts_ok and is reported as race:<file>:<function>:<variable>). TRUSTED, not proved: the step 'syntactic class => actual access pattern of the running program' (methods called on shared objects of foreign types are summarised from their source) and the Go memory model; since the interprocedural extension the functions CALLED from the closures are analysed too (call graph of lib/query, lib/value, lib/option resolved with go/types; every access through an object several goroutines can reach, with the locks held in the function, at all its call sites, or handed on by a callee: theorems callee_facts_ok, callee_locks_consistent, no_unguarded_package_state (process-wide caches and pools are sync.Map / sync.Pool / sync.Once / own lock), reachable_set_pinned (ways out of the analysed code and the set of functions that write shared state are pinned)); a known finding pins WHAT is known (Csvq.C13.pinnedUnguarded: location, function, read / write, locks held — a pinned writer that loses its lock, a new writer, a reader that gives up its lock break callee_facts_ok and are reported with their site); the abstraction 'shared or own object' is syntactic and stays trusted; cross-checked on every run by the Go race detector over filter/join/group/order/distinct/analytic/DML/file-load workloads at @@CPU 2..8. Objects that reach two goroutines WITHOUT a closure capturing them are covered by two further fact families checked by `decide` (release facts: no path of lib/query gives a node scope / block scope / merged record / key buffer back to its sync.Pool twice, deferred calls included — theorems pooled_objects_released_at_most_once, scopes_released_exactly_once; header facts: a view that takes another view's header instead of a copy is not written through — shared_headers_not_written, header_write_sites_reviewed) and by laws on the real code in the race workloads (pool probe after every failing statement of a history: objects taken from the scope pools while all are held are pairwise distinct; results of parallel sub-query statements unchanged after a history of failures; evaluating an expression for one record leaves the view's header and records unchanged)",
     "design_ref": "DESIGN.md section 5, C13",
     "note": "trusted: Lean kernel (propext, Classical.choice, Quot.sound only), the extractor extract/parfacts (syntactic, go/types; refuses unknown constructs), the lockset definition of a race in Csvq/Model/ForkJoin.lean as a rendering of the Go memory model for fork-join regions, Go's race detector (finds only races that occur in the executed schedules), 64-bit overflow ignored in RecordRange",
     "technique": "Lean 4 machine-checked proof of a race-freedom discipline + facts regenerated from the Go source (go/ast, go/types) checked by kernel evaluation + dynamic cross-check with `go build -race`",
@@ -57,19 +57,33 @@ def run(run):
         if m:
             callee_region = int(m.group(1))
     props = (LEAN / "Csvq" / "Props" / "C13.lean").read_text()
-    for nm in ("f105Locations", "f79Locations", "reviewedLocations", "openLocations", "pinnedUnguardedWriters"):
+    for nm in ("f105Locations", "f79Locations", "reviewedLocations", "openLocations"):
         m = re.search(r"def %s : List String := \[(.*?)\]\n" % nm, props, re.S)
         lists[nm] = set(re.findall(r'"((?:[^"\\]|\\.)*)"', m.group(1))) if m else set()
+    # WHAT is known there: (location, element?, function, is a write, locks held) of every unguarded write and every
+    # unguarded read under some lock (Csvq.C13.pinnedUnguarded; the theorem callee_facts_ok compares the same lists)
+    pinned = []
+    m = re.search(r"def pinnedUnguarded : List \(String × Bool × String × Bool × String\) := \[(.*?)\]\n", props, re.S)
+    if m:
+        for g in re.finditer(r'\("([^"]*)", (true|false), "([^"]*)", (true|false), "([^"]*)"\)', m.group(1)):
+            pinned.append((g.group(1), g.group(2) == "true", g.group(3), g.group(4) == "true", g.group(5)))
+    pinned_set = set(pinned)
     callee_status = {"F105": 0, "F79": 0, "reviewed": 0, "OPEN": 0}
     open_sites = set()
+    seen_pins = set()
 
     def callee_accepted(f):
         if f["region"] != callee_region:
             return False
         st = ("F105" if f["var"] in lists["f105Locations"] else "F79" if f["var"] in lists["f79Locations"] else
               "reviewed" if f["var"] in lists["reviewedLocations"] else "OPEN" if f["var"] in lists["openLocations"] else None)
-        if st is None or (f["rw"] == "w" and f["fn"] not in lists["pinnedUnguardedWriters"]):
+        if st is None:
             return False
+        if f["rw"] == "w" or f["how"] != "":
+            key = (f["var"], f["elem"], f["fn"], f["rw"] == "w", f["how"])
+            if key not in pinned_set:
+                return False     # a new writer, or a pinned access whose locks changed: reported with its site below
+            seen_pins.add(key)
         callee_status[st] += 1
         if st == "OPEN":
             open_sites.add("%s in %s" % (f["var"], f["fn"]) if f["rw"] == "w" else f["var"])
@@ -87,12 +101,23 @@ def run(run):
         sites.setdefault(site(f), []).append(f)
     for sg in sorted(sites):
         fs = sites[sg]
-        run.problems.append(Problem(
-            "direct", sg,
-            {"what": "unsynchronised access to a variable shared between goroutines of one fork-join region (static classification)",
-             "function": fs[0]["fn"], "variable": fs[0]["var"], "file": fs[0]["file"],
-             "accesses": ["%s:%d %s" % (f["file"], f["line"], "write" if f["rw"] == "w" else "read") for f in fs][:12]},
-            concrete=False, signature=sg))
+        detail = {"what": "unsynchronised access to a variable shared between goroutines of one fork-join region (static classification)",
+                  "function": fs[0]["fn"], "variable": fs[0]["var"], "file": fs[0]["file"],
+                  "accesses": ["%s:%d %s" % (f["file"], f["line"], "write" if f["rw"] == "w" else "read") for f in fs][:12]}
+        if fs[0]["region"] == callee_region:
+            was = sorted({"%s under [%s]" % ("write" if k[3] else "read", k[4]) for k in pinned if k[0] == fs[0]["var"] and k[2] == fs[0]["fn"]})
+            detail["what"] = "access through a shared object in a function the worker bodies reach, without a lock common to every conflicting access (interprocedural facts)"
+            detail["locks_held_now"] = sorted({"%s under [%s]" % ("write" if f["rw"] == "w" else "read", f["how"]) for f in fs})
+            detail["pinned_for_this_function_and_location"] = was or "nothing (a new unguarded access)"
+        run.problems.append(Problem("direct", sg, detail, concrete=False, signature=sg))
+    if ok1 and callee_region >= 0:
+        for k in pinned:
+            if k not in seen_pins:
+                sg = "race:callee:%s:%s" % (k[2], k[0])
+                if not any(p.signature == sg for p in run.problems):
+                    run.problems.append(Problem("direct", sg, {
+                        "what": "an access pinned in Csvq.C13.pinnedUnguarded is no longer there in this form (the function holds other locks now, or does not touch the location any more): the pinned list describes what is known and has to be reviewed",
+                        "pinned": "%s of %s%s in %s under [%s]" % ("write" if k[3] else "read", k[0], "[]" if k[1] else "", k[2], k[4])}, concrete=False, signature=sg))
 
     # Copy-style methods that keep a map / slice / pointer of the original (see Csvq.C13.copies_share_nothing)
     allowed_shared = {"copyshare:view.go:View.Copy:FileInfo"}
@@ -231,7 +256,7 @@ def run(run):
                               for f in facts[:: max(1, len(facts) // 5)]][:5] + run.cov["samples"]
     return run.finish(
         level="proof",
-        rule="static: every access to a shared variable in every fork-join region of lib/query (closures passed to GoroutineTaskManager.Run / EvaluateSequentially, bodies started with go, the parent between fork and join, methods of the manager types), classified and checked by kernel evaluation; dynamic: a load matrix first (CSV, TSV, fixed-length, LTSV, JSONL, JSON; from a file and from stdin; with and without header; row counts 159/161/299/301/650 in the quick tier and 1..2500 around 80, 160, 300, 320, 600, 640 in the thorough tier, on both sides of the 300-record loader buffer and of the 80-rows-per-worker threshold; @@CPU 1, 2, 4, 8), then correlated sub-queries (EXISTS, IN, scalar, NOT EXISTS under GROUP BY) with 10-12 distinct outer-column references over an outer table below and above the per-worker split size, then loads that fail in the middle of a file (surplus field, broken quote, LTSV line without separator, broken / non-object JSON line; at record 2, 350, 690 of 700; file and stdin) and loads cancelled after 50 µs … 8 ms, then inline tables (JSON_INLINE, CSV_INLINE) inside per-record sub-queries and set operations inside a sub-query of a recursive term (F80, F81, both fixed), then the function grid (every built-in scalar function of the Functions map evaluated per record over 700 rows, one type vector per first-argument type, in batches of 8 at @@CPU 2/4/8, plus value-dependent FORMAT / REGEXP / DATETIME / NUMBER_FORMAT calls) and STDIN touched for the first time inside a per-record sub-query (IN, EXISTS, scalar, LATERAL, ORDER BY), then ALTER TABLE ADD with columns without DEFAULT, with sub-query defaults and in every position on a 700-row table, then histories (every clause of a SELECT — WITH, select list, FROM, derived table, join condition, WHERE, GROUP BY, HAVING, ORDER BY, LIMIT, LIMIT PERCENT, OFFSET with and without LIMIT / WITH — made to fail by a missing field, a wrong argument count, a sub-query with too many rows or a user-defined function that raises, the failing SELECT standing as a statement, in WHERE IN / EXISTS / select list / ORDER BY of a parallel outer query, as derived table, LATERAL, set-operation operand, cursor query, INSERT … SELECT, UPDATE WHERE / SET, DELETE, CREATE TABLE AS, inside a function body, an IF block, a WHILE block and SELECT INTO: quick 56 of the 252 combinations, every clause and every position, thorough all; pass 1 at @@CPU 1 with the pool probe after every failing statement, pass 2 at @@CPU 4 (thorough 4, 2, 8) all failing statements, then five parallel statements with aliased sub-queries, joins and WITH per record whose output is compared with the output before the history), then per-record view builders (JSON_OBJECT with no members, *, table.*, plain columns, plain columns renamed, renamed to the same name, column numbers, * plus a renamed column, computed members, a sub-query member, a user-function member, nested JSON_OBJECT; correlated scalar / EXISTS / IN sub-queries, nested user-function calls, CASE over JSON_OBJECT, NOW / RAND) in the select list and WHERE of a 330-row (thorough 700) table for every expression and in ORDER BY / GROUP BY / HAVING / join condition / aggregate argument / analytic argument / UPDATE SET / INSERT … SELECT rotating (thorough: every clause, @@CPU 2, 4, 8), with the deterministic laws record_evaluation_leaves_view_unchanged and inner_names_stay_inside, then user-defined functions that change state per record (own variables, session variables, own temporary tables, cursors, nested functions, environment variables, blocks, recursion) in WHERE / select list / ORDER BY / GROUP BY / a sub-query, then RAND / NOW / JSON_OBJECT, a user-defined function that FETCHes an outer cursor called from a parallel WHERE / select list next to CURSOR … IS OPEN / IS IN RANGE / COUNT (known finding F79), list aggregates WITHIN GROUP ordered by expressions over derived tables with many groups, prepared statements executed USING literals, variables, arithmetic and sub-queries (positional and named placeholders, GROUP BY/HAVING, UPDATE, cursors declared for prepared statements), then statements of 47 kinds (6 file formats, filters, 7 join forms, GROUP BY/HAVING, ORDER BY, DISTINCT, set operators, 4 analytic families, recursive CTE, DML, cursor, 6 failing statements) on tables of 200-3000 rows with @@CPU drawn from 2..8 under the race detector; non-trivial = distinct (statement kind, @@CPU, row band, error code)",
+        rule="static: every access to a shared variable in every fork-join region of lib/query (closures passed to GoroutineTaskManager.Run / EvaluateSequentially, bodies started with go, the parent between fork and join, methods of the manager types), classified and checked by kernel evaluation; dynamic: a load matrix first (CSV, TSV, fixed-length, LTSV, JSONL, JSON; from a file and from stdin; with and without header; row counts 159/161/299/301/650 in the quick tier and 1..2500 around 80, 160, 300, 320, 600, 640 in the thorough tier, on both sides of the 300-record loader buffer and of the 80-rows-per-worker threshold; @@CPU 1, 2, 4, 8), then correlated sub-queries (EXISTS, IN, scalar, NOT EXISTS under GROUP BY) with 10-12 distinct outer-column references over an outer table below and above the per-worker split size, then loads that fail in the middle of a file (surplus field, broken quote, LTSV line without separator, broken / non-object JSON line; at record 2, 350, 690 of 700; file and stdin) and loads cancelled after 50 µs … 8 ms, then inline tables (JSON_INLINE, CSV_INLINE) inside per-record sub-queries and set operations inside a sub-query of a recursive term (F80, F81, both fixed), then the function grid (every built-in scalar function of the Functions map evaluated per record over 700 rows, one type vector per first-argument type, in batches of 8 at @@CPU 2/4/8, plus value-dependent FORMAT / REGEXP / DATETIME / NUMBER_FORMAT calls) and STDIN touched for the first time inside a per-record sub-query (IN, EXISTS, scalar, LATERAL, ORDER BY), then ALTER TABLE ADD with columns without DEFAULT, with sub-query defaults and in every position on a 700-row table, then histories (every clause of a SELECT — WITH, select list, FROM, derived table, join condition, WHERE, GROUP BY, HAVING, ORDER BY, LIMIT, LIMIT PERCENT, OFFSET with and without LIMIT / WITH — made to fail by a missing field, a wrong argument count, a sub-query with too many rows or a user-defined function that raises, the failing SELECT standing as a statement, in WHERE IN / EXISTS / select list / ORDER BY of a parallel outer query, as derived table, LATERAL, set-operation operand, cursor query, INSERT … SELECT, UPDATE WHERE / SET, DELETE, CREATE TABLE AS, inside a function body, an IF block, a WHILE block and SELECT INTO: quick 56 of the 252 combinations, every clause and every position, thorough all; pass 1 at @@CPU 1 with the pool probe after every failing statement, pass 2 at @@CPU 4 (thorough 4, 2, 8) all failing statements, then five parallel statements with aliased sub-queries, joins and WITH per record whose output is compared with the output before the history), then per-record view builders (JSON_OBJECT with no members, *, table.*, plain columns, plain columns renamed, renamed to the same name, column numbers, * plus a renamed column, computed members, a sub-query member, a user-function member, nested JSON_OBJECT; correlated scalar / EXISTS / IN sub-queries, nested user-function calls, CASE over JSON_OBJECT, NOW / RAND) in the select list and WHERE of a 330-row (thorough 700) table for every expression and in ORDER BY / GROUP BY / HAVING / join condition / aggregate argument / analytic argument / UPDATE SET / INSERT … SELECT rotating (thorough: every clause, @@CPU 2, 4, 8), with the deterministic laws record_evaluation_leaves_view_unchanged and inner_names_stay_inside, then user-defined functions that change state per record (own variables, session variables, own temporary tables, cursors, nested functions, environment variables, blocks, recursion) in WHERE / select list / ORDER BY / GROUP BY / a sub-query, then state of the transaction that is not per query (an HTTP server on the loopback interface inside the workload process serves remote tables: a not-yet-cached URL table in EXISTS / IN / scalar / LATERAL / ORDER BY sub-queries evaluated per record by 2-8 workers, one to three distinct URLs per statement, CSV and JSON, with the law remote_table_requested_once; and a user-defined function that INSERTs / UPDATEs / REPLACEs / DELETEs one of twelve tables chosen by its argument, called per record from WHERE / select list / ORDER BY of a 172-row table while the other workers read @#UNCOMMITTED / @#CREATED / @#UPDATED / @#UPDATED_VIEWS / @#LOADED_TABLES, with the law changed_tables_registered_once), then RAND / NOW / JSON_OBJECT, a user-defined function that FETCHes an outer cursor called from a parallel WHERE / select list next to CURSOR … IS OPEN / IS IN RANGE / COUNT (known finding F79), list aggregates WITHIN GROUP ordered by expressions over derived tables with many groups, prepared statements executed USING literals, variables, arithmetic and sub-queries (positional and named placeholders, GROUP BY/HAVING, UPDATE, cursors declared for prepared statements), then statements of 47 kinds (6 file formats, filters, 7 join forms, GROUP BY/HAVING, ORDER BY, DISTINCT, set operators, 4 analytic families, recursive CTE, DML, cursor, 6 failing statements) on tables of 200-3000 rows with @@CPU drawn from 2..8 under the race detector; non-trivial = distinct (statement kind, @@CPU, row band, error code)",
         trusted_base=BASE_TRUST + [
             "extract/parfacts: syntactic access classification (go/ast + go/types), refuses constructs without a rule; callees of the worker closures through a go/types call graph and an inclusion-based shared/own abstraction (context-insensitive); method summaries are syntactic; release facts (paths counted over structured control flow) and header facts (syntactic freshness, statements following in the same function)",
             "the Go memory model, rendered as the lockset race definition of Csvq/Model/ForkJoin.lean",
